@@ -500,7 +500,7 @@ func C08(c *Ctx) error {
 				ks.tsReq, ks.tsResp = denseJSON(ks.reqMsg), denseJSON(ks.respMsg)
 				for _, f := range mi.in.Fields {
 					if mi.isURLBound(f.Name) {
-						ks.urlProps = append(ks.urlProps, ir.JSONName(f.Name))
+						ks.urlProps = append(ks.urlProps, f.JSON())
 					}
 				}
 				ks.planHeaders(rr)
@@ -900,7 +900,7 @@ func (k *c08Case) modelOp() map[string]any {
 			fj["qname"] = mi.queryName(f)
 			fj["required"] = f.Ann.Query.Required
 		}
-		if t, ok := strs[ir.JSONName(f.Name)].(string); ok {
+		if t, ok := strs[f.JSON()].(string); ok {
 			fj["text"] = bytesList(t)
 		} else if strs == nil {
 			fj["text"] = bytesList(goText)
